@@ -85,8 +85,10 @@ def setup_SIGINT():
 
         progname = os.path.basename(sys.argv[0])
         signame = signal.Signals(insignal).name
-        print('{} received: program \'{}\' stops.'.format(signame, progname),
-              file=sys.stderr)
+        if sys.stderr is not None:
+            print('{} received: program \'{}\' stops.'.format(signame,
+                                                              progname),
+                  file=sys.stderr)
         sys.exit(-1)
 
     signal.signal(signal.SIGINT, sigint_handler)
